@@ -211,5 +211,5 @@ func VerifHarness_C03_RoundTrip_2()      { verifC03Stream(2, 2, false, false) }
 func VerifHarness_C03_RoundTripSplit_1() { verifC03Stream(1, 2, true, false) }
 func VerifHarness_C03_RoundTripSplit_2() { verifC03Stream(2, 1, true, false) }
 func VerifHarness_C03_Faults_1()         { verifC03Stream(1, 1, false, true) }
-func VerifHarness_C03_Faults_2()         { verifC03Stream(2, 1, false, true) }
+func VerifHarness_C03_Faults_2x0()       { verifC03Stream(2, 0, false, true) }
 func VerifHarness_C03_FaultsSplit_1()    { verifC03Stream(1, 1, true, true) }
